@@ -6,7 +6,9 @@ descriptions into the evidence next to the numbers it measures.
 
 DEFAULT_TIMEOUT = {"quick": 600, "thorough": 3600}
 # memory classes: expected peak RSS of the CBMC process of a harness (GB), used by the scheduler
-MEM_CLASS_GB = {"L": 1.5, "M": 4.0, "H": 10.0, "X": 22.0}
+MEM_CLASS_GB = {"L": 1.5, "M": 4.0, "H": 10.0, "X": 22.0, "XX": 40.0}
+# per-process address-space limit (ulimit -v) by class: a harness that outgrows its class is reported out-of-memory
+MEM_LIMIT_GB = {"L": 20.0, "M": 20.0, "H": 20.0, "X": 30.0, "XX": 48.0}
 
 ZSTUBS = ["stub: zeroize::optimization_barrier -> no-op", "stub: zeroize::volatile_set -> no-op"]
 
@@ -478,3 +480,38 @@ for g in [0, 7]:
       stubs=ZSTUBS + _CUT, timeout_s=1800,
       what="window edge, concrete generations: a request exactly 1025 generations ahead is refused (InvalidFutureGeneration) and leaves the "
            "ratchet unchanged", symbolic="ratchet secret bytes", bounds="generation %d, requested %d" % (g, g + 1025))
+
+for g in [0, 7]:
+    H("c05_window_edge_refused_g%d" % g, "c05_ratchet_request.rs", ["C05", "C04"], "quick", fs="fs_noooo", unwind=1030,
+      stubs=ZSTUBS + _CUT, timeout_s=1800,
+      what="window edge, concrete generations: a request exactly 1025 generations ahead is refused (InvalidFutureGeneration) and leaves the "
+           "ratchet unchanged", symbolic="ratchet secret bytes", bounds="generation %d, requested %d" % (g, g + 1025))
+
+_STC = ["stub: mls_rs::group::secret_tree::SecretTree::new -> empty-map stand-in that parks the encryption secret (no BTreeMap insertion)"]
+H("c13_epoch_from_key_schedule", "c13_derive.rs", ["C13"], "thorough", unwind=64, mem="XX", timeout_s=3600, stubs=ZSTUBS + _UF + _STC,
+  what="full epoch derivation (RFC 9420 Figure 22), real KDFLabel encoding: joiner = ExpandWithLabel(Extract(init[n-1], commit_secret), 'joiner', "
+       "GroupContext); epoch_secret = ExpandWithLabel(Extract(joiner, psk_secret), 'epoch', GroupContext); the nine DeriveSecret outputs "
+       "(sender data, encryption, exporter, external, confirm, membership, resumption, authentication, init) land in the right fields; the "
+       "secret tree is sized for the group", symbolic="init, commit and psk secrets, all group-context fields", bounds="Nh = 2, 2-byte context fields, tree size 4")
+H("c13_epoch_from_joiner", "c13_derive.rs", ["C13"], "thorough", unwind=64, mem="XX", timeout_s=3600, stubs=ZSTUBS + _UF + _STC,
+  what="joiner-side epoch derivation (Welcome): epoch_secret = ExpandWithLabel(Extract(joiner, psk_secret), 'epoch', GroupContext) and the same nine "
+       "DeriveSecret outputs", symbolic="joiner and psk secrets, group-context fields", bounds="Nh = 2, tree size 4")
+
+
+_EP = ("epoch derivation (RFC 9420 Figure 22) with the real KDFLabel encoding; SecretTree::new cut away. One obligation group per harness "
+       "(the all-in-one harness exceeded 48 GB): ")
+H("c13_epoch_split_head", "c13_derive.rs", ["C13"], "quick", unwind=64, mem="M", timeout_s=1200, stubs=ZSTUBS + _UF + _STC,
+  what=_EP + "joiner = ExpandWithLabel(Extract(init[n-1], commit_secret), 'joiner', GroupContext); epoch_secret = ExpandWithLabel(Extract(joiner, "
+       "psk_secret), 'epoch', GroupContext); 13 KDF calls in all", symbolic="init, commit, psk secrets; all group-context fields", bounds="Nh = 2, 2-byte context fields")
+for f, lab, tier in [("sender_data", "sender data", "thorough"), ("exporter", "exporter", "thorough"), ("external", "external", "thorough"),
+                     ("confirm", "confirm", "quick"), ("membership", "membership", "thorough"), ("resumption", "resumption", "thorough"),
+                     ("authentication", "authentication", "thorough"), ("init", "init", "quick"), ("encryption", "encryption", "quick")]:
+    H("c13_epoch_split_" + f, "c13_derive.rs", ["C13"], tier, unwind=64, mem="M", timeout_s=1200, stubs=ZSTUBS + _UF + _STC,
+      what=_EP + "the '%s' secret of the new epoch is DeriveSecret(epoch_secret, '%s')%s" % (lab, lab, " and goes to a secret tree sized for the group" if f == "encryption" else ""),
+      symbolic="init, commit, psk secrets; all group-context fields", bounds="Nh = 2")
+H("c13_epoch_joiner_head", "c13_derive.rs", ["C13"], "quick", unwind=64, mem="M", timeout_s=1200, stubs=ZSTUBS + _UF + _STC,
+  what=_EP + "joiner side (Welcome): epoch_secret = ExpandWithLabel(Extract(joiner_secret, psk_secret), 'epoch', GroupContext)",
+  symbolic="joiner, psk secrets; group-context fields", bounds="Nh = 2")
+H("c13_epoch_joiner_confirm_init", "c13_derive.rs", ["C13"], "thorough", unwind=64, mem="H", timeout_s=1200, stubs=ZSTUBS + _UF + _STC,
+  what=_EP + "joiner side: confirmation key and init secret are DeriveSecret(epoch_secret, 'confirm' | 'init')",
+  symbolic="joiner, psk secrets; group-context fields", bounds="Nh = 2")
